@@ -610,7 +610,7 @@ func runLive(t pbt.TB, c Case) {
 
 // TestLiveServer: short machines (every submit waits; at most one restart) through gRPC.
 func TestLiveServer(t *testing.T) {
-	pbt.Check(t, 16, 600, func(rt *rapid.T) {
+	pbt.Check(t, 12, 160, func(rt *rapid.T) {
 		ops := genOps(rt)
 		restarts := 0
 		kept := ops[:0]
